@@ -12,9 +12,22 @@ import (
 type program struct {
 	Src    string
 	Shape  string
-	Origin string // template | grammar | corpus
-	Corpus []any  // corpus inputs (Origin == corpus)
+	Origin string // template | grammar | corpus | stress
+	Corpus []any  // the inputs to use (Origin == corpus or stress)
+	Budget int    // step budget override (0: stepBudget)
 }
+
+// stressProgram is a long-running update program (input: the size n) in which many
+// arrays created by the allocator of one `|=` die (an owned array that grows is
+// re-allocated and the old address stays registered) while the update query keeps
+// creating fresh arrays of the same size class, so that the Go runtime reuses the
+// address of a dead allocator-owned array for a value the allocator does not own; the
+// later path `.[i][0].a[0]` then updates that value in place although it is referenced
+// twice (`a` and `b`). It emits the indices of the elements whose `b` member differs
+// from what the update query built; the correct answer is always []. Variants with the
+// same effect: `[length] as $t` with paths `.[range($n)][0,1]` (16-byte arrays) and
+// `[length,1] as $t | [$t, $t]` with paths `.[range($n)][0,1,2], .[range($n)][0][1][0]`.
+const stressProgram = `. as $n | [] | (.[range($n)][0,1,2,3,4], .[range($n)][0].a[0]) |= (if type == "null" then ([length,1,2,3] as $t | {a: $t, b: $t}) else 7 end) | [to_entries[] | select(.value[0].b != [0,1,2,3]) | .key]`
 
 var (
 	holeKeys   = []string{"a", "b", "c", "x", "a", "b", "key", "value", "y"}
